@@ -292,6 +292,44 @@ def synth(rng, n):
             return a + b
         return f(T("i", (3,)), T("j", (3,)))
     jobs.append(("funsor.function", fn))
+    # rules that no generated program reached (evidence/C02: registered but never fired): built directly
+    from funsor.cnf import Contraction
+
+    def contraction_mixtures():
+        m1, m2 = T("i") + gauss(((),)).build(), T("i") + gauss(((),)).build()
+        return Contraction(ops.logaddexp, ops.add, frozenset([x]), m1, m2)
+    jobs.append(("Contraction(logaddexp,add,{x},mixture,mixture)", contraction_mixtures))
+    def contraction_mixtures_int():
+        m1, m2 = T("i") + gauss(((),)).build(), T("ij") + gauss(((),)).build()
+        return Contraction(ops.logaddexp, ops.add, frozenset([x, Variable("i", Bint[2])]), m1, m2)
+    jobs.append(("Contraction(logaddexp,add,{x,i},mixture,mixture)", contraction_mixtures_int))
+    jobs.append(("Contraction(add,mul,{x},exp(G),G)", lambda: Contraction(ops.add, ops.mul, frozenset([x]), gauss(((),)).build().exp(), gauss(((),)).build())))
+    jobs.append(("Contraction(add,mul,{x},exp(G),x)", lambda: Contraction(ops.add, ops.mul, frozenset([x]), gauss(((),)).build().exp(), x)))
+    jobs.append(("Contraction(add,mul,{i},exp(T),T)", lambda: Contraction(ops.add, ops.mul, frozenset([Variable("i", Bint[2])]), T("ij").exp(), T("ik"))))
+    jobs.append(("Contraction(add,mul,{x},exp(mixture),G)", lambda: Contraction(ops.add, ops.mul, frozenset([x]), (T("i") + gauss(((),)).build()).exp(), gauss(((),)).build())))
+    def distribute_integrate():
+        with lazy:
+            s = gauss(((),)).build() + (-gauss(((),)).build())
+        with normalize:
+            s = funsor.reinterpret(s)
+        return Integrate(gauss(((),)).build(), s, frozenset([x]))
+    jobs.append(("Integrate(G, normal form of G + -G)", distribute_integrate))
+    jobs.append(("exp(G).reduce(add,x)", lambda: gauss(((),)).build().exp().reduce(ops.add, "x")))
+    jobs.append(("exp(mixture).reduce(add,{x,i})", lambda: (T("i") + gauss(((),)).build()).exp().reduce(ops.add, frozenset(["x", "i"]))))
+    jobs.append(("exp(lazy).reduce(add,i)", lambda: (T("ij") * x).exp().reduce(ops.add, "i")))
+    jobs.append(("Independent(no diag var)", lambda: Independent(T("ij"), "r", "j", "u")))
+    jobs.append(("Independent(lazy, no diag var)", lambda: Independent(T("ij") * x, "r", "j", "u")))
+    def norm_trivial():
+        with normalize:
+            return Contraction(ops.null, ops.null, frozenset(), T("ij") * x)
+    jobs.append(("normalize Contraction(null,null,{},f)", norm_trivial))
+    from funsor.terms import Binary
+    jobs.append(("Binary(getitem,Tuple,Number)", lambda: Binary(ops.getitem, Tuple((T("i"), x, Number(2.0))), Number(1, 3))))
+    def align_align():
+        a = (T("ij") * x).align(("j", "i", "x"))
+        b = (T("jk") * x).align(("k", "j", "x"))
+        return Binary(ops.sub, a, b)
+    jobs.append(("Binary(sub,Align,Align)", align_align))
     for i in range(n):
         label, thunk = jobs[i % len(jobs)]
         yield "synth:" + label, [], thunk
